@@ -1,6 +1,7 @@
 (** Base definitions shared by every model: explicit outcomes (values, errors,
     panics), and small list helpers.  No proofs about the code live here. *)
-From Coq Require Export List Bool Arith NArith ZArith Lia String.
+From Coq Require Export String.
+From Coq Require Export List Bool Arith NArith ZArith Lia.
 Export ListNotations.
 Open Scope N_scope.
 
